@@ -35,6 +35,71 @@ fn main() {
     }
     vh::engine::panics::install();
     match args[1].as_str() {
+        "walk" => {
+            // debugging aid: print the transcript of a file
+            let path = pos.get(0).cloned().unwrap_or_else(|| usage());
+            let data = std::fs::read(&path).expect("read");
+            let cached = pos.iter().any(|a| a == "cached");
+            let tolerant = pos.iter().any(|a| a == "tolerant");
+            let pw = pos.iter().find_map(|a| a.strip_prefix("pw=")).unwrap_or("").to_string();
+            match vh::engine::open::open(&data, cached, tolerant, pw.as_bytes()) {
+                Err(e) => println!("load error: {:?}", e),
+                Ok(f) => {
+                    let mut opts = vh::engine::walker::WalkOpts::default();
+                    opts.verbose = true;
+                    let t = vh::with_file!(f, file => vh::engine::walker::walk_file(file, &opts));
+                    for (c, o) in &t.entries {
+                        println!("{:60} {:?}", c, o);
+                    }
+                    println!("{} entries, {} ok, {} panics", t.entries.len(), t.count_ok(), t.panics().len());
+                }
+            }
+        }
+        "gendoc" => {
+            // debugging aid: generate documents, report how they load, optionally dump one
+            let n: u64 = pos.get(0).and_then(|s| s.parse().ok()).unwrap_or(20);
+            let dump = pos.get(1).cloned();
+            let strat = vh::engine::docgen::spec_strategy();
+            let mut errs: std::collections::BTreeMap<String, u64> = Default::default();
+            for k in 0..n {
+                let spec = vh::engine::runner::nth_case(&strat, seed, k);
+                let built = vh::engine::docgen::build(&spec);
+                if let Some(d) = &dump {
+                    if k + 1 == n {
+                        std::fs::write(d, &built.file).unwrap();
+                        println!("labels: {:?} password {:?}", built.labels, String::from_utf8_lossy(&built.password));
+                    }
+                }
+                match vh::engine::open::open(&built.file, false, false, &built.password) {
+                    Err(e) => {
+                        *errs.entry(format!("load:{}", vh::engine::errs::root_kind(&e))).or_insert(0) += 1;
+                        if errs.len() < 4 {
+                            println!("case {} load error {:?} labels {:?}", k, e, built.labels);
+                        }
+                    }
+                    Ok(f) => {
+                        let t = vh::with_file!(f, file => vh::engine::walker::walk_file(file, &vh::engine::walker::WalkOpts::default()));
+                        for (c, o) in &t.entries {
+                            match o {
+                                vh::engine::walker::Out::Err(k2) if !c.starts_with("resolve(") && !c.starts_with("get_page(") => {
+                                    let key = format!("{}:{}", c.split(|ch: char| ch == '(' || ch == '[').next().unwrap_or(""), k2);
+                                    let e = errs.entry(key).or_insert(0);
+                                    *e += 1;
+                                    if *e == 1 {
+                                        println!("case {}: {} -> {:?}   labels {:?}", k, c, o, built.labels);
+                                    }
+                                }
+                                vh::engine::walker::Out::Panic(k2) => {
+                                    *errs.entry(format!("PANIC {}", k2)).or_insert(0) += 1;
+                                }
+                                _ => {}
+                            }
+                        }
+                    }
+                }
+            }
+            println!("{:#?}", errs);
+        }
         "list" => {
             for p in props::all() {
                 println!("{}", p.id);
